@@ -1036,6 +1036,10 @@ def _scenario(prog, report: ReplayReport, label: str, steps: List[Tuple[str, Cal
                 if len(steps) == 1 and not getattr(op, "_may_raise", False):
                     report.restore.append(f"`{what}` raises {exc.exc_type} on the toy model ({label})")
                 break  # the block ends by this exception
+            except (KeyError, AttributeError, ValueError) as exc:
+                # the scenario itself looks an object up in the model (model.genes.get_by_id('g2')) and does not find it
+                report.c02.append(f"before `{what}` ({label}): the model does not hold what the earlier steps should have left - the scenario's own lookup fails with {type(exc).__name__}: {exc}")
+                break
             x02, x01 = split_invariants(m, USER_VARS, USER_CONS)
             for f in x02[:2]:
                 report.c02.append(f"after `{what}` ({label}): {f}")
@@ -1099,6 +1103,13 @@ def run_replay(prog) -> ReplayReport:
         raise AnalysisError(f"C03.replay: building the stand-in model raises {exc.exc_type}")
     except Unknown as exc:
         raise AnalysisError(f"C03.replay: the stand-in model cannot be built: {exc}")
+    except KeyError as exc:
+        # the scenario looks its objects up in the model it has just built
+        msg = f"the model as built by add_reactions does not list {exc} although a rule of an added reaction names it"
+        rep.c02.append(msg)
+        rep.restore.append(msg)
+        prog._replay_report = rep
+        return rep
     x02, x01 = split_invariants(m)
     rep.c02 += [f"the model as built by add_reactions / add_groups: {f}" for f in x02[:2]]
     rep.c01 += [f"the model as built by add_reactions: {f}" for f in x01[:2]]
